@@ -51,6 +51,9 @@ fn copy_dir(from: &Path, to: &Path) -> usize {
 /// Run the campaign as a stream of `ctx`.  `prop` failures become violations of this check,
 /// failures of the target's other oracles are noted only (their own checks run the same target).
 pub fn campaign(ctx: &mut Ctx, target: &str, runs_per_job: u64, jobs: usize, max_len: usize) {
+    if ctx.failed() {
+        return;
+    }
     let t0 = Instant::now();
     let name = format!("libfuzzer_{}", target);
     if let Err(e) = build_target(target) {
